@@ -774,6 +774,28 @@ func ruleLinkFixpoint(c *Ctx) []Obligation {
 	} else {
 		obs = append(obs, bad(R, con, c.InstrPos(site), "the loop around the linking pass is not left on `the number of filed modules is unchanged`"))
 	}
+	// the linker descends into what it found: every recursive call of include is handed the module FindModule returned
+	if fm := c.Fn("yang.(*Modules).FindModule"); fm != nil {
+		k := 0
+		for _, fn2 := range c.Funcs {
+			if fn2.Blocks == nil || !(fn2 == inc || inside[fn2]) {
+				continue
+			}
+			for _, ci := range c.callsTo(fn2, inc) {
+				k++
+				conR := fmt.Sprintf("include: recursive call #%d descends into the module that was found", k)
+				arg := ci.Common().Args[len(ci.Common().Args)-1]
+				if derivesFrom(arg, func(x ssa.Value) bool {
+					call, isC := x.(*ssa.Call)
+					return isC && call.Call.StaticCallee() == fm
+				}) {
+					obs = append(obs, ok(R, conR, c.InstrPos(ci), "the argument is the result of FindModule"))
+				} else {
+					obs = append(obs, bad(R, conR, c.InstrPos(ci), "the recursion is not handed the module just found (it re-enters the module it is in, which the visited set turns into a no-op): the imports and includes of imported modules are never linked"))
+				}
+			}
+		}
+	}
 	// the visited set of include is emptied at the start of every pass
 	con = "every linking pass starts with an empty visited set"
 	var memo *types.Var
@@ -931,7 +953,15 @@ func sameLoadExpr(a, b ssa.Value) bool {
 		return ok && types.Identical(x.Type(), y.Type()) && sameLoadExpr(x.X, y.X)
 	case *ssa.Call:
 		y, ok := b.(*ssa.Call)
-		if !ok || x.Call.StaticCallee() == nil || x.Call.StaticCallee() != y.Call.StaticCallee() || len(x.Call.Args) != len(y.Call.Args) {
+		if !ok || len(x.Call.Args) != len(y.Call.Args) {
+			return false
+		}
+		bx, isBx := x.Call.Value.(*ssa.Builtin)
+		by, isBy := y.Call.Value.(*ssa.Builtin)
+		switch {
+		case isBx && isBy && bx.Name() == by.Name() && (bx.Name() == "len" || bx.Name() == "cap"):
+		case x.Call.StaticCallee() != nil && x.Call.StaticCallee() == y.Call.StaticCallee():
+		default:
 			return false
 		}
 		for i := range x.Call.Args {
@@ -2249,6 +2279,54 @@ func ruleMemoPair(c *Ctx) []Obligation {
 			}
 		}
 	}
+	obs = append(obs, c.memoLocalPairs(R)...)
+	return obs
+}
+
+// memoLocalPairs: test-and-set on local set-valued maps: `if !seenA[k] { seenB[k] = true … }` with two different maps of
+// one type is the slip MEMO.PAIR looks for on the module set's fields.
+func (c *Ctx) memoLocalPairs(R string) []Obligation {
+	var obs []Obligation
+	for _, fn := range c.Funcs {
+		if fn.Blocks == nil || !c.isRepoFn(fn) {
+			continue
+		}
+		n := 0
+		eachInstr(fn, func(in ssa.Instruction) {
+			mu, isMU := in.(*ssa.MapUpdate)
+			if !isMU {
+				return
+			}
+			mk, isMk := mu.Map.(*ssa.MakeMap)
+			if !isMk {
+				return
+			}
+			if mt, isM := mk.Type().Underlying().(*types.Map); !isM || !isBoolType(mt.Elem()) {
+				return
+			}
+			for _, g := range guardsAt(mu.Block()) {
+				cond, _ := stripNot(g.Cond, g.Branch)
+				l, isL := cond.(*ssa.Lookup)
+				if !isL || l.CommaOk {
+					continue
+				}
+				if l.Index != mu.Key && !sameLoadExpr(l.Index, mu.Key) && !sameExpr(l.Index, mu.Key) {
+					continue
+				}
+				mk2, isMk2 := l.X.(*ssa.MakeMap)
+				if !isMk2 || !types.Identical(mk2.Type(), mk.Type()) {
+					continue
+				}
+				n++
+				con := fmt.Sprintf("%s: local test-and-set #%d tests the set it files in", c.FnName(fn), n)
+				if mk2 == mk {
+					obs = append(obs, ok(R, con, c.InstrPos(mu), "same map"))
+				} else {
+					obs = append(obs, bad(R, con, c.InstrPos(mu), "the key is tested in one local set and filed in another of the same type: what the test was to prevent (a duplicate) is not prevented, and the other set wrongly suppresses a later, unrelated key"))
+				}
+			}
+		})
+	}
 	return obs
 }
 
@@ -2587,6 +2665,131 @@ func ruleSchemaExtForm(c *Ctx) []Obligation {
 	})
 	if n == 0 {
 		obs = append(obs, undecided(R, "build: extension hand-over", c.Pos(build.Pos()), "no call through the extension slot found"))
+	}
+	return obs
+}
+
+func init() {
+	register(&Rule{Name: "ERR.IMPORTSELF", Props: []string{"C04", "C08"}, Floor: 3,
+		Doc: "errors are imported into the collecting entry: no call imports an entry's errors into itself, and the collector's recursion keeps its receiver",
+		Run: ruleErrImportSelf})
+	register(&Rule{Name: "RANGE.COALESCE", Props: []string{"C10"}, Floor: 2,
+		Doc: "while merging sorted parts, the part that is tested for adjacency / extension and the part that is extended are the same element of the output list",
+		Run: ruleRangeCoalesce})
+}
+
+func ruleErrImportSelf(c *Ctx) []Obligation {
+	const R = "ERR.IMPORTSELF"
+	imp := c.Fn("yang.(*Entry).importErrors")
+	if imp == nil {
+		return []Obligation{undecided(R, "error importer", "-", "(*Entry).importErrors not found")}
+	}
+	var obs []Obligation
+	for _, fn := range c.Funcs {
+		if fn.Blocks == nil || !c.isRepoFn(fn) {
+			continue
+		}
+		n := 0
+		for _, ci := range c.callsTo(fn, imp) {
+			args := ci.Common().Args
+			if len(args) < 2 {
+				continue
+			}
+			n++
+			con := fmt.Sprintf("%s: import of errors #%d goes from one entry into another", c.FnName(fn), n)
+			switch {
+			case args[0] == args[1] || sameLoadExpr(args[0], args[1]):
+				obs = append(obs, bad(R, con, c.InstrPos(ci), "an entry's errors are imported into the entry itself: the entry that was to collect them gets nothing, and whatever was recorded while converting the other entry is never reported"))
+			case fn == imp && !isParamN(fn, args[0], 0):
+				obs = append(obs, bad(R, con, c.InstrPos(ci), "the collector's recursion changes its receiver: errors found deeper in the tree are imported into the entry that was passed in (or one of its children) instead of the collecting entry"))
+			default:
+				obs = append(obs, ok(R, con, c.InstrPos(ci), "receiver and argument differ; the recursion keeps the collector"))
+			}
+		}
+	}
+	return obs
+}
+
+func ruleRangeCoalesce(c *Ctx) []Obligation {
+	const R = "RANGE.COALESCE"
+	fn := c.Fn("yang.coalesce")
+	if fn == nil {
+		return []Obligation{undecided(R, "coalescing", "-", "yang.coalesce not found")}
+	}
+	yr := c.MustNamed("yang", "YRange")
+	fMax := FieldVar(yr, "Max")
+	// the output list: the slice made in the function
+	var out ssa.Value
+	eachInstr(fn, func(in ssa.Instruction) {
+		if mk, isMk := in.(*ssa.MakeSlice); isMk && out == nil {
+			out = mk
+		}
+	})
+	if out == nil {
+		o := ok(R, "coalesce: output list", c.Pos(fn.Pos()), "no list is made in the function: another shape, not decided")
+		o.Trivial = true
+		return []Obligation{o}
+	}
+	// every read or write of a .Max of an indexed element inside the merging loop is on the output list
+	var obs []Obligation
+	n := 0
+	eachInstr(fn, func(in ssa.Instruction) {
+		fa, isFA := in.(*ssa.FieldAddr)
+		if !isFA || loopHeaderOf(fa.Block()) == nil {
+			return
+		}
+		if _, f, _ := fieldOf(fa); f != fMax {
+			return
+		}
+		ia, isIA := fa.X.(*ssa.IndexAddr)
+		if !isIA {
+			return
+		}
+		n++
+		con := fmt.Sprintf("coalesce: upper bound access #%d through an index is on the list being built", n)
+		if ia.X == out {
+			obs = append(obs, ok(R, con, c.InstrPos(fa), "the made list"))
+		} else {
+			obs = append(obs, bad(R, con, c.InstrPos(fa), "the merging loop reads or writes the upper bound of an indexed element of the INPUT list: the part compared with the next one is not the part that was extended so far, so overlapping or adjacent parts stay separate (or separate ones are merged)"))
+		}
+	})
+	if n == 0 {
+		o := ok(R, "coalesce: indexed upper-bound accesses", c.Pos(fn.Pos()), "none in a loop: another shape, not decided")
+		o.Trivial = true
+		obs = append(obs, o)
+	}
+	// equality of two parts looks at both bounds of both
+	if eq := c.Fn("yang.(YRange).Equal"); eq != nil {
+		fMin := FieldVar(yr, "Min")
+		got := map[string]bool{}
+		eachInstr(eq, func(in ssa.Instruction) {
+			fa, isFA := in.(*ssa.FieldAddr)
+			if !isFA {
+				return
+			}
+			_, f, base := fieldOf(fa)
+			if f != fMin && f != fMax {
+				return
+			}
+			for i := range eq.Params {
+				if isParamN(eq, base, i) || isParamN(eq, resolveArg(rootOf(base)), i) {
+					got[fmt.Sprintf("%d.%s", i, f.Name())] = true
+				}
+				if a, isA := base.(*ssa.Alloc); isA {
+					for _, r := range *a.Referrers() {
+						if st, isS := r.(*ssa.Store); isS && st.Addr == ssa.Value(a) && st.Val == ssa.Value(eq.Params[i]) {
+							got[fmt.Sprintf("%d.%s", i, f.Name())] = true
+						}
+					}
+				}
+			}
+		})
+		con := "YRange.Equal compares the lower and the upper bound of both parts"
+		if got["0.Min"] && got["0.Max"] && got["1.Min"] && got["1.Max"] {
+			obs = append(obs, ok(R, con, c.Pos(eq.Pos()), "Min and Max of receiver and argument are read"))
+		} else {
+			obs = append(obs, bad(R, con, c.Pos(eq.Pos()), "a bound of one of the two parts is never read: parts that differ in that bound compare equal, and a restriction that changes only that bound is taken for `unchanged`"))
+		}
 	}
 	return obs
 }
